@@ -1,6 +1,6 @@
 (** Properties_C02.v — C02: refused or failed requests never change or destroy
     stored data.  Statements only. *)
-From GW Require Import Base GoPath Fs DavServer Rfc4918 FsProofs DavRefine DavCorollaries.
+From GW Require Import Base GoPath Fs DavServer Rfc4918 FsProofs DavRefine DavCorollaries UploadSteps UploadStepsProofs.
 Local Open Scope list_scope.
 
 (** Whenever the answer is 4xx or 5xx the whole modelled file system — names,
@@ -34,3 +34,56 @@ Theorem C02_status_classes : forall root sb r,
   In st [200; 201; 204; 207]%N \/ In st [400; 403; 404; 405; 409; 412; 415; 500]%N.
 Proof. exact status_classes. Qed.
 Print Assumptions C02_status_classes.
+
+(** * The upload, OS call by OS call
+
+    [serve] treats the upload of a PUT as one step.  These theorems are about the
+    sequence of OS calls of LocalFileSystem.Create itself ([UploadSteps.upload]:
+    createTemp next to the target, one write per piece of the body, then
+    os.Remove(tmp) or os.Rename(tmp, target)), for every sandbox, every directory,
+    every division of the body into pieces and every temporary name that is new
+    (what O_CREATE|O_EXCL guarantees; the harness checks it on every run). *)
+
+(** Wherever the body breaks off, the tree afterwards is *equal* to the tree before. *)
+Theorem C02_upload_abort_restores : forall sb dir tmp name st,
+  is_dir (geto sb dir) = true -> geto sb (dir ++ [tmp]) = None -> forall chunks,
+  snd (upload sb dir tmp name st chunks true) = sb.
+Proof. exact upload_abort_restores. Qed.
+Print Assumptions C02_upload_abort_restores.
+
+(** At every read of the body, removing the temporary name from the state gives the
+    tree before: no stored resource is truncated or half-written at any moment. *)
+Theorem C02_upload_in_progress : forall sb dir tmp name st,
+  is_dir (geto sb dir) = true -> geto sb (dir ++ [tmp]) = None -> forall chunks fails,
+  Forall (fun s => remo s (u_tmp dir tmp) = sb) (fst (upload sb dir tmp name st chunks fails)).
+Proof. exact upload_in_progress_frame. Qed.
+Print Assumptions C02_upload_in_progress.
+
+(** A complete upload ends in the tree with the body mapped at the target. *)
+Theorem C02_upload_commit : forall sb dir tmp name st,
+  is_dir (geto sb dir) = true -> geto sb (dir ++ [tmp]) = None -> forall chunks,
+  snd (upload sb dir tmp name st chunks false) = seto sb (u_tgt dir name) (File (concat_str chunks) st).
+Proof. exact upload_commit_is_put. Qed.
+Print Assumptions C02_upload_commit.
+
+(** The single step of [serve] for a PUT that passes its checks *is* that sequence. *)
+Theorem C02_put_is_upload : forall root sb r segs tmp chunks,
+  segs_of (rpath r) = GOk segs ->
+  req_cond r (match geto sb (hp root segs) with Some n => fi_etag (fi_of (dir_tag r) n) | None => ""%string end) = None ->
+  is_dir (geto sb (hp root segs)) = false -> segs <> [] ->
+  is_dir (geto sb (hp root (parent segs))) = true ->
+  geto sb (hp root (parent segs) ++ [tmp]) = None ->
+  (body_fails r = false -> concat_str chunks = body r) ->
+  snd (upload sb (hp root (parent segs)) tmp (last segs ""%string) (stamp r) chunks (body_fails r))
+  = fst (do_put root sb r).
+Proof. exact put_is_upload. Qed.
+Print Assumptions C02_put_is_upload.
+
+(** The freshness of the temporary name is necessary: with a name that is taken, a
+    failing upload destroys the resource of that name. *)
+Theorem C02_upload_not_fresh_refuted :
+  exists sb dir tmp name st chunks,
+    is_dir (geto sb dir) = true /\ geto sb (dir ++ [tmp]) <> None /\
+    snd (upload sb dir tmp name st chunks true) <> sb.
+Proof. exact upload_not_fresh_loses_data. Qed.
+Print Assumptions C02_upload_not_fresh_refuted.
